@@ -188,9 +188,60 @@ thread_local! {
 /// Installs a quiet panic hook that records file:line of the last panic (for violation classes).
 pub fn install_panic_hook() {
     std::panic::set_hook(Box::new(|info| {
-        let loc = info.location().map(|l| format!("{}:{}", l.file(), l.line())).unwrap_or_default();
+        let mut loc = info.location().map(|l| format!("{}:{}", l.file(), l.line())).unwrap_or_default();
+        if is_decoder_location(&loc) && !cfg!(miri) {
+            // which decoder functions were on the stack: the class of a panic is file + message +
+            // call site, so that two different defects that happen to panic with the same message
+            // in the same file (a bounds check in blend.rs, say) are told apart without line numbers
+            let site = panic_site(&std::backtrace::Backtrace::force_capture().to_string());
+            if !site.is_empty() {
+                loc = format!("{loc}@{site}");
+            }
+        }
         LAST_PANIC_LOCATION.with(|c| *c.borrow_mut() = loc);
     }));
+}
+
+/// `fn1<fn2`: the innermost decoder function outside the grid utility crate and its nearest distinct
+/// decoder caller, generics, closures and hashes stripped, last two path segments each.
+pub fn panic_site(backtrace: &str) -> String {
+    let mut frames: Vec<String> = Vec::new();
+    for line in backtrace.lines() {
+        let t = line.trim_start();
+        let Some((num, sym)) = t.split_once(": ") else { continue };
+        if num.is_empty() || !num.chars().all(|c| c.is_ascii_digit()) {
+            continue;
+        }
+        let sym = sym.trim();
+        let core = sym.trim_start_matches('<');
+        if !core.starts_with("jxl_") || core.starts_with("jxl_grid") || core.starts_with("jxlsim") {
+            continue;
+        }
+        // strip generic arguments
+        let mut out = String::new();
+        let mut depth = 0i32;
+        for ch in sym.chars() {
+            match ch {
+                '<' => depth += 1,
+                '>' => depth -= 1,
+                _ if depth == 0 => out.push(ch),
+                _ => {}
+            }
+        }
+        // `<T as Trait>::f` leaves `::f` after stripping: fall back to the text inside the brackets
+        let out = if out.starts_with("::") || out.is_empty() { sym.replace(['<', '>'], "") } else { out };
+        let segs: Vec<&str> = out.split("::").filter(|s| !s.is_empty() && *s != "{{closure}}" && !(s.starts_with('h') && s.len() == 17 && s[1..].chars().all(|c| c.is_ascii_hexdigit()))).collect();
+        let n = segs.len();
+        let name = if n >= 2 { format!("{}::{}", segs[n - 2], segs[n - 1]) } else { segs.join("::") };
+        let name: String = name.chars().filter(|c| c.is_ascii_alphanumeric() || *c == '_' || *c == ':').collect();
+        if frames.last() != Some(&name) {
+            frames.push(name);
+        }
+        if frames.len() == 2 {
+            break;
+        }
+    }
+    frames.join("<")
 }
 
 pub fn last_panic_location() -> String {
